@@ -208,6 +208,10 @@ func (privateKey *PrivateKey) Proof(k *big.Int, ecdsaPub *crypto2.ECPoint) Proof
 }
 
 func (pf Proof) Verify(pkN, k *big.Int, ecdsaPub *crypto2.ECPoint) (bool, error) {
+	if pkN == nil || pkN.Cmp(one) <= 0 {
+		// Z_N* is empty for N <= 1: GenerateXs would never find a challenge and this call would block forever
+		return false, errors.New("paillier proof verify: the modulus must be greater than 1")
+	}
 	iters := ProofIters
 	pch, xch := make(chan bool, 1), make(chan []*big.Int, 1) // buffered to allow early exit
 	prms := primes.Until(verifyPrimesUntil).List()           // uses cache primed in init()
